@@ -39,6 +39,11 @@
 //	        "0.1dev-r1716", ...), queried with that same string: alone, among others, in a second
 //	        entry, next to decoy entries, next to every permuted range of <= 2 events of every type
 //	        (listed => affected); and not listed with no range at all (=> not affected)
+//	phase H package names: per ecosystem an alphabet of names (plain, with '.', '_', '-', mixed case,
+//	        repeated separators, npm scopes, Maven group:artifact variants); every (queried name,
+//	        record name) pair x every probe x {match-everything entry, versions-only entry, every
+//	        range of <= 2 events, other-name entry next to a queried-name entry in both orders,
+//	        same name in another ecosystem}
 //	phase D explicit `versions` lists (every subset of size <= 2 of the probe set) alone or
 //	        next to a range (<= 2 / <= 3 events, permuted) of type ECOSYSTEM / GIT
 //
@@ -72,8 +77,11 @@
 //     npm "0" / "0.0" / "00" are not valid semver; npm is queried with 0.0.0 and 0.0.0+build instead.
 //   - a version the ecosystem cannot parse that is NOT listed explicitly while ranges are present
 //     (phase G only generates: listed explicitly => affected; not listed and no range => not affected).
-//   - package names differing only by case / PEP 503 normalisation, ecosystem strings with a
-//     ":suffix" (decoys use clearly different names and the three plain ecosystem names).
+//   - package names that differ but are equal after lower-casing and removing every '-', '_', '.'
+//     (a superset of PEP 503 / any ecosystem's normalisation): whether such a record matches is not
+//     stated. Phase H skips exactly those (record name, queried name) pairs, counted in
+//     dont_care_skipped; byte-identical names must match, names with different keys must not.
+//   - ecosystem strings with a ":suffix" (decoys use the three plain ecosystem names).
 package main
 
 import (
@@ -445,22 +453,29 @@ type ecoT struct {
 	// allProbes = probes (phases A-E) + the extra queried versions of phases F and G; pkgs
 	// parallels allProbes. zqIdx / weirdIdx index into allProbes.
 	allProbes []string
-	zqIdx     []int
-	weirdIdx  []int
-	types     []string
-	probes    []string
-	pkgs      []*extractor.Package
-	isAlias   []bool
+	// names is the package-name alphabet of phase H; plain is a lower-case alphanumeric name
+	// outside the alphabet used when attributing a mismatch to the name comparison.
+	names    []string
+	plain    string
+	zqIdx    []int
+	weirdIdx []int
+	types    []string
+	probes   []string
+	pkgs     []*extractor.Package
+	isAlias  []bool
 }
 
 var ecos = []*ecoT{
-	{osv: "npm", sys: resolve.NPM, name: "left-pad", other: "right-pad", preZero: "0.0.0-alpha", spell: map[int][]string{1: {"1.0.0", "v1.0.0", "1.0.0+build"}, 5: {"2.0.0", "v2.0.0", "2.0.0+build"}},
+	{osv: "npm", sys: resolve.NPM, name: "left-pad", other: "right-pad", plain: "plainpkg",
+		names: []string{"leftpad", "left-pad", "left_pad", "left.pad", "Left-Pad", "lodash.merge", "@scope/left-pad", "@scope/pkg", "@Scope/left_pad", "JSONStream"}, preZero: "0.0.0-alpha", spell: map[int][]string{1: {"1.0.0", "v1.0.0", "1.0.0+build"}, 5: {"2.0.0", "v2.0.0", "2.0.0+build"}},
 		zlad: []string{"0.0.0-alpha", "0.0.0-beta", "0.0.0", "1.0.0", "2.0.0"}, zspell: map[int][]string{3: {"0.0.0", "v0.0.0", "0.0.0+build"}},
 		zq: []string{"0.0.0-alpha", "0.0.0-beta", "0.0.0", "0.0.0+build", "0.9.0", "1.0.0", "1.0.2", "2.0.0", "9.0.0"}, types: []string{"ECOSYSTEM", "SEMVER", "GIT"}},
-	{osv: "Maven", sys: resolve.Maven, name: "com.example:alpha", other: "com.example:beta", preZero: "0-alpha", spell: map[int][]string{1: {"1.0.0", "1.0", "1"}, 5: {"2.0.0", "2.0", "2"}},
+	{osv: "Maven", sys: resolve.Maven, name: "com.example:alpha", other: "com.example:beta", plain: "plaingroup:plainpkg",
+		names: []string{"com.example:alpha", "com.example:alpha-core", "com.example:alpha_core", "com.example:alpha.core", "com.example.alpha:core", "org.Example:Alpha-Core", "com.example:Alpha", "io.github.some-org:some_lib.x"}, preZero: "0-alpha", spell: map[int][]string{1: {"1.0.0", "1.0", "1"}, 5: {"2.0.0", "2.0", "2"}},
 		zlad: []string{"0-alpha", "0-beta", "0.0.0", "1.0.0", "2.0.0"}, zspell: map[int][]string{3: {"0.0.0", "0.0"}},
 		zq: []string{"0-alpha", "0-beta", "0", "0.0", "0.0.0", "0.9.0", "1.0.0", "1.0.2", "2.0.0", "9.0.0"}, types: []string{"ECOSYSTEM", "GIT"}},
-	{osv: "PyPI", sys: resolve.PyPI, name: "alpha-lib", other: "beta-lib", preZero: "0.dev0", spell: map[int][]string{1: {"1.0.0", "1.0", "1"}, 5: {"2.0.0", "2.0", "2"}},
+	{osv: "PyPI", sys: resolve.PyPI, name: "alpha-lib", other: "beta-lib", plain: "plainpkg",
+		names: []string{"alphalib", "alpha-lib", "alpha_lib", "alpha.lib", "Alpha-Lib", "zope.interface", "typing_extensions", "Flask_Cors", "flask-cors", "ruamel.yaml.clib", "a-b__c..d"}, preZero: "0.dev0", spell: map[int][]string{1: {"1.0.0", "1.0", "1"}, 5: {"2.0.0", "2.0", "2"}},
 		zlad: []string{"0.dev0", "0a1", "0.0.0", "1.0.0", "2.0.0"}, zspell: map[int][]string{3: {"0.0.0", "0.0", "00"}},
 		zq: []string{"0.dev0", "0a1", "0", "0.0", "0.0.0", "00", "0.9.0", "1.0.0", "1.0.2", "2.0.0", "9.0.0"}, types: []string{"ECOSYSTEM", "GIT"}},
 }
@@ -715,6 +730,21 @@ func (c *canon) listed(perm []int) []rEvent {
 	return out
 }
 
+// nameKey is the coarsest normalisation any ecosystem applies to package names and then some:
+// lower-case, with every '-', '_' and '.' removed. Two names with different keys are different
+// packages under every normalisation; two different names with the same key are "equal only up to
+// normalisation" (don't-care).
+func nameKey(n string) string {
+	var b strings.Builder
+	for _, r := range strings.ToLower(n) {
+		if r == '-' || r == '_' || r == '.' {
+			continue
+		}
+		b.WriteRune(r)
+	}
+	return b.String()
+}
+
 // ---------------------------------------------------------------------------
 // Executing one case and attributing a mismatch.
 
@@ -748,10 +778,10 @@ var (
 	gPermLists                        atomic.Int64
 	gSpelledLists                     atomic.Int64
 	gZoneLists                        atomic.Int64
-	gPhaseEvals                       [9]atomic.Int64 // A, B, C1, C2, D, D0, E, F, G
+	gPhaseEvals                       [10]atomic.Int64 // A, B, C1, C2, D, D0, E, F, G, H
 )
 
-var phaseNames = []string{"A", "B", "C1", "C2", "D", "D0", "E", "F", "G"}
+var phaseNames = []string{"A", "B", "C1", "C2", "D", "D0", "E", "F", "G", "H"}
 
 func safeCall(v *osvschema.Vulnerability, pkg *extractor.Package) (got bool, panicked any, stack string) {
 	defer func() {
@@ -774,10 +804,15 @@ func callImpl(c *rCase, pkg *extractor.Package) (got bool, panicked any, stack s
 type fcase struct {
 	phase string
 	aff   []osvschema.Affected
+	qname string             // queried package name when it is not the ecosystem's default (phase H)
+	qpkg  *extractor.Package // the package for (qname, probe)
 }
 
 func (c fcase) toRCase(e *ecoT, pi int) *rCase {
 	out := &rCase{Phase: c.phase, Ecosystem: e.osv, Name: e.name, Version: e.allProbes[pi], Affected: []rAffected{}}
+	if c.qname != "" {
+		out.Name = c.qname
+	}
 	for _, a := range c.aff {
 		ra := rAffected{Ecosystem: a.Package.Ecosystem, Name: a.Package.Name}
 		if a.Versions != nil {
@@ -799,14 +834,16 @@ func rg(typ string, evs []rEvent) osvschema.Range {
 	return osvschema.Range{Type: osvschema.RangeType(typ), Events: evs}
 }
 
-func pkgFor(eco *ecoT, version string) *extractor.Package {
-	for i, p := range eco.allProbes {
-		if p == version {
-			return eco.pkgs[i]
+func pkgFor(eco *ecoT, name, version string) *extractor.Package {
+	if name == eco.name {
+		for i, p := range eco.allProbes {
+			if p == version {
+				return eco.pkgs[i]
+			}
 		}
 	}
 	return guidedremediation.VerifVKToPackage(resolve.VersionKey{
-		PackageKey:  resolve.PackageKey{System: eco.sys, Name: eco.name},
+		PackageKey:  resolve.PackageKey{System: eco.sys, Name: name},
 		VersionType: resolve.Concrete, Version: version})
 }
 
@@ -849,6 +886,23 @@ func causeKey(c *rCase, eco *ecoT, got, want bool) string {
 	if got {
 		dir = "false-positive"
 	}
+	// (0) the package name: does the same record behave once the queried name (in the query and in
+	// the entries carrying exactly that name) is replaced by a plain lower-case one?
+	if c.Name != eco.name {
+		c0 := *c
+		c0.Name = eco.plain
+		c0.Affected = nil
+		for _, a := range c.Affected {
+			if a.Ecosystem == c.Ecosystem && a.Name == c.Name {
+				a.Name = eco.plain
+			}
+			c0.Affected = append(c0.Affected, a)
+		}
+		g0, p0, _ := callImpl(&c0, pkgFor(eco, c0.Name, c0.Version))
+		if p0 == nil && g0 == specAffected(&c0) {
+			return "package-name-comparison:" + dir
+		}
+	}
 	// (1) decoys: does the record without the non-matching entries behave?
 	var own []rAffected
 	for _, a := range c.Affected {
@@ -859,7 +913,7 @@ func causeKey(c *rCase, eco *ecoT, got, want bool) string {
 	if len(own) != len(c.Affected) {
 		c2 := *c
 		c2.Affected = own
-		g2, p2, _ := callImpl(&c2, pkgFor(eco, c.Version))
+		g2, p2, _ := callImpl(&c2, pkgFor(eco, c.Name, c.Version))
 		if p2 == nil && g2 == specAffected(&c2) {
 			return "entry-for-other-package-or-ecosystem-matched:" + dir
 		}
@@ -872,7 +926,7 @@ func causeKey(c *rCase, eco *ecoT, got, want bool) string {
 		for _, rg := range a.Ranges {
 			c1 := rCase{Phase: "attr", Ecosystem: c.Ecosystem, Name: c.Name, Version: c.Version,
 				Affected: []rAffected{{Ecosystem: a.Ecosystem, Name: a.Name, Ranges: []rRange{rg}}}}
-			g1, p1, _ := callImpl(&c1, pkgFor(eco, c.Version))
+			g1, p1, _ := callImpl(&c1, pkgFor(eco, c.Name, c.Version))
 			w1 := specAffected(&c1)
 			if p1 != nil || g1 == w1 {
 				continue
@@ -900,7 +954,7 @@ func causeKey(c *rCase, eco *ecoT, got, want bool) string {
 		}
 		c1 := rCase{Phase: "attr", Ecosystem: c.Ecosystem, Name: c.Name, Version: c.Version,
 			Affected: []rAffected{{Ecosystem: a.Ecosystem, Name: a.Name, Versions: a.Versions}}}
-		g1, p1, _ := callImpl(&c1, pkgFor(eco, c.Version))
+		g1, p1, _ := callImpl(&c1, pkgFor(eco, c.Name, c.Version))
 		if p1 == nil && g1 != specAffected(&c1) {
 			return "explicit-versions-list:" + dir
 		}
@@ -914,10 +968,14 @@ type runner struct {
 
 // check executes one case; returns the oracle verdict.
 func (x *runner) check(fc fcase, eco *ecoT, pi int, st *stats) bool {
-	want := specAffectedOSV(eco.osv, eco.name, eco.allProbes[pi], fc.aff)
+	qname, qpkg := eco.name, eco.pkgs[pi]
+	if fc.qname != "" {
+		qname, qpkg = fc.qname, fc.qpkg
+	}
+	want := specAffectedOSV(eco.osv, qname, eco.allProbes[pi], fc.aff)
 	st.vuln.ID = "VERIF-C18"
 	st.vuln.Affected = fc.aff
-	got, pv, stack := safeCall(&st.vuln, eco.pkgs[pi])
+	got, pv, stack := safeCall(&st.vuln, qpkg)
 	st.evals++
 	if want {
 		st.affected++
@@ -956,6 +1014,7 @@ type workItem struct {
 	phase string
 	eco   *ecoT
 	c     *canon
+	qn    int // phase H: index of the queried name in eco.names
 }
 
 func otherEcos(e *ecoT) []*ecoT {
@@ -1038,20 +1097,23 @@ func main() {
 	}{{"A", maxLen}, {"E", maxLen}, {"D", lenD}, {"C1", lenC1}, {"C2", lenC2}, {"B", lenB1}} {
 		for _, c := range upTo(ph.l) {
 			for _, e := range ecos {
-				items = append(items, workItem{ph.name, e, c})
+				items = append(items, workItem{ph.name, e, c, 0})
 			}
 		}
 	}
 	// phase D0 / C0: entries without any range (one item per ecosystem)
 	for _, e := range ecos {
-		items = append(items, workItem{"D0", e, nil})
-		items = append(items, workItem{"G", e, nil})
+		items = append(items, workItem{"D0", e, nil, 0})
+		items = append(items, workItem{"G", e, nil, 0})
+		for qn := range e.names {
+			items = append(items, workItem{"H", e, nil, qn})
+		}
 	}
 	// phase F: the zero zone
 	zcanons := genCanonN(5, maxLen)
 	for _, c := range zcanons {
 		for _, e := range ecos {
-			items = append(items, workItem{"F", e, c})
+			items = append(items, workItem{"F", e, c, 0})
 			// oracle self-check on the zero zone as well
 			evs := c.listedZone(e, perms(len(c.evs))[0], make([]int, len(c.evs)))
 			for _, q := range e.zq {
@@ -1118,7 +1180,7 @@ func main() {
 		e := it.eco
 		var st stats
 		var distinct int64
-		mk := func(phase string, _ int, aff ...osvschema.Affected) fcase { return fcase{phase, aff} }
+		mk := func(phase string, _ int, aff ...osvschema.Affected) fcase { return fcase{phase: phase, aff: aff} }
 		own := func(versions []string, rs ...osvschema.Range) osvschema.Affected {
 			return entry(e.osv, e.name, versions, rs...)
 		}
@@ -1367,6 +1429,53 @@ func main() {
 					break
 				}
 			}
+		case "H":
+			// package names: the queried package is named q; record entries are named r, for every
+			// r of the alphabet. r == q byte-for-byte: the entry counts. nameKey(r) != nameKey(q):
+			// the entry never counts. Otherwise (equal up to normalisation only): don't-care.
+			q := e.names[it.qn]
+			pkgs := make([]*extractor.Package, len(e.probes))
+			for pi, pv := range e.probes {
+				pkgs[pi] = guidedremediation.VerifVKToPackage(resolve.VersionKey{
+					PackageKey:  resolve.PackageKey{System: e.sys, Name: q},
+					VersionType: resolve.Concrete, Version: pv})
+			}
+			all := rg("ECOSYSTEM", []rEvent{{Introduced: "0"}})
+			hc := func(pi int, aff ...osvschema.Affected) bool {
+				fc := fcase{phase: "H", aff: aff, qname: q, qpkg: pkgs[pi]}
+				w := x.check(fc, e, pi, &st)
+				distinct++
+				if it.qn == 5 && pi == 2 && len(aff) == 1 && len(aff[0].Ranges) == 1 && len(aff[0].Ranges[0].Events) == 2 && aff[0].Package.Name == q {
+					sample(fc.toRCase(e, pi), w)
+				}
+				return w
+			}
+			for _, rn := range e.names {
+				if rn != q && nameKey(rn) == nameKey(q) {
+					st.skipped += int64(len(e.probes))
+					continue // equal only up to normalisation
+				}
+				for pi, pv := range e.probes {
+					// an entry that, were it for the queried package, would make every version affected
+					hc(pi, entry(e.osv, rn, []string{pv}, all))
+					hc(pi, entry(e.osv, rn, []string{pv}))
+					for _, s2 := range seconds {
+						if s2.pidx != 0 {
+							continue // canonical listing; listing order is phases A-F's subject
+						}
+						hc(pi, entry(e.osv, rn, nil, rg("ECOSYSTEM", s2.evs)))
+						if rn != q {
+							// an entry for the queried name decides, the other-name entry adds nothing
+							hc(pi, entry(e.osv, rn, []string{pv}, all), entry(e.osv, q, nil, rg("ECOSYSTEM", s2.evs)))
+							hc(pi, entry(e.osv, q, nil, rg("ECOSYSTEM", s2.evs)), entry(e.osv, rn, []string{pv}, all))
+						}
+					}
+					// same name, other ecosystem: never counts
+					for _, o := range otherEcos(e) {
+						hc(pi, entry(o.osv, rn, []string{pv}, all))
+					}
+				}
+			}
 		case "G":
 			// versions the ecosystem's grammar may reject, decided by string equality only: listed
 			// explicitly => affected, whatever ranges stand next to the list; not listed and no
@@ -1384,7 +1493,7 @@ func main() {
 					w := x.check(mk("G", pi, aff...), e, pi, &st)
 					distinct++
 					if wi == 0 && len(aff) == 1 && len(aff[0].Ranges) == 1 && len(aff[0].Ranges[0].Events) == 2 && aff[0].Ranges[0].Type == "ECOSYSTEM" {
-						sample(fcase{"G", aff}.toRCase(e, pi), w)
+						sample(fcase{phase: "G", aff: aff}.toRCase(e, pi), w)
 					}
 				}
 				// listed
@@ -1490,6 +1599,7 @@ func main() {
 		"Maven": map[string]any{"ladder": ecos[1].zlad, "zero_spellings_in_events": ecos[1].zspell[3], "queried": ecos[1].zq},
 		"PyPI":  map[string]any{"ladder": ecos[2].zlad, "zero_spellings_in_events": ecos[2].zspell[3], "queried": ecos[2].zq}})
 	r.Set("unparsable_version_strings", weird)
+	r.Set("package_names", map[string][]string{"npm": ecos[0].names, "Maven": ecos[1].names, "PyPI": ecos[2].names})
 	r.Set("event_spellings", map[string]map[int][]string{"npm": ecos[0].spell, "Maven": ecos[1].spell, "PyPI": ecos[2].spell})
 	byPhase := map[string]int64{}
 	for i, n := range phaseNames {
